@@ -574,7 +574,7 @@ class SymInterp(Interp):
             def ndindex(*shape):
                 import itertools
                 shape = shape[0] if len(shape) == 1 and isinstance(shape[0], (tuple, list)) else shape
-                return list(itertools.product(*[range(int(s)) for s in shape]))
+                return iter(list(itertools.product(*[range(int(s)) for s in shape])))      # np.ndindex is an iterator: exhausted after one pass
             return ndindex
         if name == "ix_":
             def ix_(*lists):
